@@ -185,7 +185,8 @@ inductive Op
   | rss                            -- [x]      sqrt Σ_{coil,complex} x²    (per pixel)
   | safeDiv                        -- [y, x]   where(y == 0, 0, x / y), y broadcast
   | unitMap                        -- [x]      zeros_like(x) with real part 1
-  | kthModulus                     -- [x]      −kthvalue(−|x| of the non-zero coils, k)
+  | kthModulus                     -- [x]      −kthvalue(−|x| of the non-zero coils, k)   (precondition: some coil is
+                                   --          non-zero — `torch.kthvalue` raises on an empty tensor; the model yields 0)
   | maxModulus                     -- [x]      amax |x|
   | constOne                       -- [x]      1.0
   | sumCoils                       -- [x]      Σ_coil x  (complex)
